@@ -236,6 +236,8 @@ def execute(seed, cfg, ops, enumerate_kills=True):
                     if sz[0] == 'edge':
                         # record = 4 + 16 + size + 4 bytes
                         sz = max(0, free - 24 + sz[1])
+                    elif fsize > (1 << 17):
+                        sz = 100          # the file has grown enough: keep the run cheap
                     else:
                         sz = max(0, int(fsize * sz[1]) + sz[2])
                 e = (random.Random(next_idx * 31 + sz).randbytes(sz), next_idx, next_idx % 7)
